@@ -42,13 +42,28 @@ ASSUMPTIONS = ["domain: |k_i| <= 0.98, orders 1..16, and the conditioning predic
                "input forms (list, negative stride, stride 2, complex dtype holding real values): the result must equal the result on the "
                "contiguous float64 / complex128 array within 5e-10 * r0/e (rounding-level differences of the scalar types, amplified by the "
                "conditioning); rc2poly(k) without r0 is only required to return the same polynomial (its final error is then 0 by convention)",
+               "kind `kept`: reference values of every representation come from a step-up recursion written in the harness (numpy); a kept "
+               "result must be byte-identical to what it was when returned (no tolerance) and within the tolerance of `laws` of the reference "
+               "(1e-8 * max(1, (r0/e)/20) for the conditioned directions, 1e-9 otherwise); clauses fed with a kept result: 10 times that "
+               "(the input carries the error of a conditioned direction; measured worst 0.083); reflection coefficients / lar / is / "
+               "polynomial tails are measured on the scale max(1, .); parameter sets are redrawn until the conditioning predicate holds; "
+               "aliasing (numpy.shares_memory between kept results or with an argument, .base reachable from module globals) is never reported "
+               "by itself, it only triggers a probe (the caller rescales the array it was returned in place / one more conversion of "
+               "another set of the same order and dtype) and a changed value is reported; the matrix U of rlevinson is not kept",
                "single-precision inputs (float32 / complex64) are evaluated only when r0/e <= 1e2, at tolerance "
                "2e-6 * prod((1 + |k_i|) / (1 - |k_i|)) (the amplification bound of the Levinson / step-down recursions, >= r0/e) "
                "against the double-precision call on the same (rounded) values"]
 RULE = ("random reflection-coefficient sets (real and complex, dyadic, |k| <= 0.98; a share with all moduli >= 0.625), order 1..16, "
         "zero-lag r0 > 0, filtered by e/r0 >= 1e-8; constant-modulus sets v * (all +, all -, alternating) * e^{i theta}, "
         "v in {0.9375, 0.96875}, at every order inside the domain; all-zero and partly-zero sets; every conversion and composition, "
-        "every input container / dtype / stride form; independent LSF vectors; integer autocorrelations; non-trivial = order >= 2")
+        "every input container / dtype / stride form; independent LSF vectors; integer autocorrelations; "
+        "histories with kept results (kind `kept`): three different parameter sets of one order and dtype (every order 1..16, real "
+        "and complex, both orders of the converter sequence, set after set / converter after converter), and two sets of one order and "
+        "dtype with sets of another order / the other dtype in between: all 16 converters (poly2rc, poly2ac, rc2ac, rc2poly, ac2poly, "
+        "ac2rc, rlevinson, LEVINSON, levdown, levup, lar / is / lsf maps) run on every set, the returned objects are kept, and after the "
+        "later conversions each is compared with its bytes at return time and with the reference, then used as the input of the "
+        "inverse-pair / commuting-square clauses; caller's arguments fresh / one re-used buffer / temporaries (tags kept-*); "
+        "non-trivial = order >= 2")
 
 
 def _lp():
@@ -568,6 +583,440 @@ def oracle_acint(p):
     return out
 
 
+# --- kept results: what an EARLIER conversion returned stays valid while LATER conversions run ---------------------------
+#
+# Every other kind looks at a result immediately after the call that produced it.  Here the results of all conversions of several
+# parameter sets are kept (the very objects the library returned), more conversions run (same function and the rest of the
+# family, on other parameter sets of the same order and dtype, of other orders, of the other dtype), and only then
+#   (B) every kept result is compared with what it was when it was returned (bytes) and with the reference value,
+#   (C) every kept result is used as the INPUT of the inverse-pair / commuting-square clauses,
+#   (B2) the byte comparison is repeated after the conversions of (C),
+#   (D) tripwires: two kept arrays that share memory, or a kept array whose .base is reachable from the globals of the library
+#       modules, trigger a directed probe (the caller scales the array it owns in place / one more conversion of another parameter
+#       set of the same order and dtype); only a concrete changed value is reported, never the aliasing by itself.
+# The caller's input arrays are fresh arrays kept alive ("fresh"), one re-used buffer per representation that the caller overwrites
+# for the next parameter set ("buffer": a result that is a view of the argument shows up as a changed kept value), or temporaries
+# dropped after the call ("temp": recycled id()s); they must never be modified by the library.
+
+KEPT_FNS = ("rc2poly", "rc2ac", "poly2rc", "poly2ac", "ac2poly", "ac2rc", "rlevinson", "LEVINSON", "levdown", "levup",
+            "rc2lar", "lar2rc", "rc2is", "is2rc", "poly2lsf", "lsf2poly")
+KEPT_REAL_ONLY = frozenset(KEPT_FNS[10:])
+# name -> (array argument, scalar arguments, outputs: (reference quantity, tolerance class) or None for an output that is not kept)
+# tolerance classes: "c" = conditioned direction, _tol(k) = 1e-8 * max(1, (r0/e)/20) as in `laws`; "w" = well conditioned, 1e-9
+# (measured on the unchanged tree, 52 generator streams = 5300 histories: worst error / tolerance 9.4e-3 for "c" [final error of
+# ac2poly], 4.3e-4 for "w" [lsf2poly; all others <= 1.1e-5]; the re-use clauses of phase (C) have their own tolerance, see there)
+KEPT_SPEC = {
+    "rc2poly": ("k", ("r0",), (("a", "w"), ("e", "w"))),
+    "rc2ac": ("k", ("r0",), (("R", "c"),)),
+    "poly2rc": ("a", ("e",), (("k", "c"),)),
+    "poly2ac": ("a", ("e",), (("R", "c"),)),
+    "ac2poly": ("Rin", (), (("a", "c"), ("e", "c"))),
+    "ac2rc": ("Rin", (), (("k", "c"), ("r0", "w"))),
+    "rlevinson": ("a", ("e",), (("R", "c"), None, ("k", "c"), ("ev", "c"))),
+    "LEVINSON": ("Rin", (), (("a1", "c"), ("e", "c"), ("k", "c"))),
+    "levdown": ("a", ("e",), (("ap", "w"), ("ep", "w"))),
+    "levup": ("ap", ("kp", "ep"), (("a", "w"), ("e", "w"))),
+    "rc2lar": ("k", (), (("g", "w"),)),
+    "lar2rc": ("g", (), (("k", "w"),)),
+    "rc2is": ("k", (), (("s", "w"),)),
+    "is2rc": ("s", (), (("k", "w"),)),
+    "poly2lsf": ("a", (), (("w", "w"),)),
+    "lsf2poly": ("w", (), (("a", "w"),)),
+}
+KEPT_MAX_MSG = 4
+KEPT_STATS = None       # set to a dict by the measuring script: worst error / tolerance per (phase, converter, quantity)
+
+
+def _stat(key, d, t):
+    if KEPT_STATS is not None:
+        KEPT_STATS[key] = max(KEPT_STATS.get(key, 0.0), d / t)
+
+
+def _kept_fn(name):
+    import spectrum.levinson as lv
+    if name in ("rlevinson", "LEVINSON", "levdown", "levup"):
+        return getattr(lv, name)
+    return getattr(_lp(), name)
+
+
+def _ref_set(k, r0):
+    """every representation of the parameter set (k, r0), by the step-up recursion written here (numpy only):
+    a_m = [a_{m-1}, 0] + k_m conj(reversed), e_m = e_{m-1} (1 - |k_m|^2), R(m) = -k_m e_{m-1} - sum_{j=1}^{m-1} a_{m-1}[j] R(m-j)"""
+    k = np.asarray(k)
+    cplx = np.iscomplexobj(k)
+    dt = complex if cplx else float
+    a = np.array([1.0], dtype=dt)
+    e = float(r0)
+    R = [dt(r0)]
+    ev = []
+    ap, ep = a, e
+    for m in range(1, len(k) + 1):
+        km = k[m - 1]
+        r = -km * e
+        for j in range(1, m):
+            r = r - a[j] * R[m - j]
+        R.append(r)
+        ap, ep = a, e
+        a0 = np.concatenate((a, [0.0]))
+        a = a0 + km * np.conj(a0[::-1])
+        e = e * (1.0 - abs(km) ** 2)
+        ev.append(e)
+    S = {"k": np.array(k, dtype=dt), "r0": float(r0), "a": a, "e": float(e), "R": np.array(R, dtype=dt), "Rin": np.array(R, dtype=dt),
+         "ap": ap, "ep": float(ep), "kp": dt(k[-1]), "ev": np.array(ev), "a1": a[1:].copy(), "cplx": cplx, "order": len(k)}
+    if not cplx:
+        S["g"] = np.log((1.0 + S["k"]) / (1.0 - S["k"]))
+        S["s"] = 2.0 / np.pi * np.arcsin(S["k"])
+    return S
+
+
+def _dist(o, ref, label):
+    """max-norm distance relative to the larger max-norm; reflection coefficients, log-area ratios, inverse-sine parameters and the
+    polynomial without its leading 1 are measured on the scale max(1, .) (an all-zero parameter set is admissible, and a coefficient
+    of 6e-17 in its place is a rounding error of a polynomial whose leading coefficient is 1, not a relative error of 100 %)"""
+    a, b = c(o), c(ref)
+    d = rel(a, b)
+    if label in ("k", "a1", "g", "s") and a.size and np.isfinite(d):
+        d *= min(1.0, max(float(np.max(np.abs(a))), float(np.max(np.abs(b)))))
+    return d
+
+
+def _snap(o):
+    """what a kept object is, now: (dtype, shape, bytes) of an array, a tuple of a list, the value of a scalar"""
+    if isinstance(o, np.ndarray):
+        return ("nd", o.dtype.str, o.shape, o.tobytes())
+    if isinstance(o, (list, tuple)):
+        return ("seq", tuple(complex(v) for v in o))
+    return ("sc", complex(o))
+
+
+def _first_diff(o, snap):
+    """'[i]: was x, now y' for the first entry of the kept object that differs from its snapshot"""
+    if snap[0] == "nd":
+        old = np.frombuffer(snap[3], dtype=np.dtype(snap[1])).reshape(snap[2])
+        if not isinstance(o, np.ndarray) or o.shape != old.shape or o.dtype != old.dtype:
+            return "shape / dtype changed"
+        new = o.ravel()
+        old = old.ravel()
+        for i in range(old.size):
+            if old[i].tobytes() != new[i].tobytes():
+                return "[%d]: was %r, now %r" % (i, old[i].item(), new[i].item())
+        return "?"
+    if snap[0] == "seq":
+        new = tuple(complex(v) for v in o)
+        for i, (u, v) in enumerate(zip(snap[1], new)):
+            if u != v:
+                return "[%d]: was %r, now %r" % (i, u, v)
+        return "length changed"
+    return "was %r, now %r" % (snap[1], complex(o))
+
+
+def _module_level_ids():
+    """id()s of the arrays reachable from the globals of the library modules of this property (directly, or inside a dict / list /
+    tuple / set global, two levels deep)"""
+    import spectrum.levinson as lv
+    ids = set()
+
+    def walk(v, depth):
+        if isinstance(v, np.ndarray):
+            ids.add(id(v))
+        elif depth < 3 and isinstance(v, dict):
+            for x in list(v.values()):
+                walk(x, depth + 1)
+        elif depth < 3 and isinstance(v, (list, tuple, set, frozenset)):
+            for x in list(v):
+                walk(x, depth + 1)
+    for mod in (lv, _lp()):
+        for name, v in list(vars(mod).items()):
+            if not name.startswith("__"):
+                walk(v, 0)
+    return ids
+
+
+def _root_base(o):
+    while isinstance(o, np.ndarray) and o.base is not None:
+        o = o.base
+    return o
+
+
+def _probe_set(S):
+    """another admissible parameter set of the same order and dtype (moduli <= 0.49, so e/r0 >= 0.75^16)"""
+    k = S["k"]
+    k2 = -0.5 * k[::-1]
+    if np.array_equal(k2, k):
+        k2 = k2 + 0.25
+    return _ref_set(k2, S["r0"] * 0.5 + 0.25)
+
+
+def _kept_faults(S):
+    """rejected calls of the order and dtype of the parameter set S (a reflection coefficient of exactly 1 in the polynomial / in the
+    reflection coefficients, leading coefficient 2, a polynomial of one coefficient, |R(1)| = R(0)): whatever they do (they raise
+    ValueError / AssertionError, or return non-finite numbers) is ignored; what is checked is that the conversions of the admissible
+    sets before and after them are what they are without them"""
+    import spectrum.levinson as lv
+    lp = _lp()
+    a_bad = np.array(S["a"])
+    a_bad[-1] = 1.0
+    R_bad = np.array(S["Rin"])
+    R_bad[1] = R_bad[0]
+    k_bad = np.array(S["k"])
+    k_bad[-1] = 1.0
+    calls = [(lp.poly2rc, (a_bad, S["e"])), (lp.poly2ac, (2.0 * np.array(S["a"]), S["e"])), (lv.rlevinson, (a_bad, S["e"])),
+             (lv.rlevinson, (np.array(S["a"][:1]), S["e"])), (lp.ac2poly, (R_bad,)), (lp.ac2rc, (R_bad,)), (lv.LEVINSON, (R_bad,)),
+             (lv.levdown, (a_bad, S["e"])), (lp.rc2ac, (k_bad, S["r0"]))]
+    if not S["cplx"]:
+        calls += [(lp.rc2lar, (k_bad,)), (lp.rc2is, (1.5 * k_bad,))]
+    for fn, args in calls:
+        try:
+            fn(*args)
+        except Exception:
+            pass
+
+
+def oracle_kept(p):
+    sets = [_ref_set(s["k"], s["r0"]) for s in p["sets"]]
+    for S in sets:
+        if not in_domain(S["k"]):
+            return ["harness: parameter set outside the stated domain (e/r0 = %.2e)" % _ratio(S["k"])]
+    mode = p.get("inputs", "fresh")
+    names = list(KEPT_FNS)
+    rot = int(p.get("rot", 0)) % len(names)
+    names = names[rot:] + names[:rot]
+    if p.get("rev"):
+        names = names[::-1]
+    out = []
+
+    def say(msg):
+        if len(out) < KEPT_MAX_MSG:
+            out.append(msg)
+
+    def who(si):
+        S = sets[si]
+        return "set %d: %s, order %d" % (si, "complex" if S["cplx"] else "real", S["order"])
+
+    # the LSF vector handed to lsf2poly is the library's own poly2lsf of the reference polynomial, computed (and copied) before
+    # the history starts; its defining property is evaluated in (B)
+    for S in sets:
+        if not S["cplx"]:
+            try:
+                S["w"] = np.array(_lp().poly2lsf(np.array(S["a"])), dtype=float)
+            except Exception as ex:
+                return ["poly2lsf raised %r on a minimum-phase polynomial of order %d" % (ex, S["order"])]
+    bufs = {}
+    alive = []          # (si, fn, array handed to the library, snapshot)     ("fresh" inputs)
+    kept = []           # dicts: si, fn, label, obj, snap, cls
+
+    def arg_array(S, key):
+        v = np.array(S[key])
+        if mode == "buffer":
+            bk = (key, v.shape, v.dtype.str)
+            if bk not in bufs:
+                bufs[bk] = np.empty_like(v)
+            bufs[bk][...] = v           # the caller re-uses its own buffer for the next parameter set
+            return bufs[bk]
+        if mode == "readonly":
+            v.flags.writeable = False   # e.g. numpy.frombuffer / broadcast data: an admissible argument the library may only read
+        return v
+
+    def call(si, fn, S, arr, scalars):
+        """library call on the array `arr`; checks that the argument is left unchanged"""
+        before = _snap(arr)
+        r = _kept_fn(fn)(arr, *scalars)
+        if _snap(arr) != before:
+            say("%s modified its argument (%s; %s)" % (fn, who(si), _first_diff(arr, before)))
+        return r
+
+    # (A) the history
+    order = [(si, fn) for si in range(len(sets)) for fn in names]
+    if p.get("interleave") == "by-fn":
+        order = [(si, fn) for fn in names for si in range(len(sets))]
+    blk = 4 * len(sets) if p.get("interleave") == "by-fn" else len(names)
+    for idx, (si, fn) in enumerate(order):
+        S = sets[si]
+        if p.get("faults") and idx % blk == blk - 1:
+            _kept_faults(S)             # rejected inputs of the same order and dtype in the middle of the history
+        if S["cplx"] and fn in KEPT_REAL_ONLY:
+            continue
+        akey, skeys, outs = KEPT_SPEC[fn]
+        arr = arg_array(S, akey)
+        try:
+            r = call(si, fn, S, arr, [S[s] for s in skeys])
+        except Exception as ex:
+            say("%s raised %r on an admissible input (%s)" % (fn, ex, who(si)))
+            continue
+        if mode in ("fresh", "readonly"):
+            alive.append((si, fn, arr, _snap(arr)))
+        del arr
+        if not isinstance(r, tuple):
+            r = (r,)
+        if len(r) != len(outs):
+            say("%s returned %d values" % (fn, len(r)))
+            continue
+        for o, spec in zip(r, outs):
+            if spec is not None:
+                kept.append({"si": si, "fn": fn, "label": spec[0], "cls": spec[1], "obj": o, "snap": _snap(o)})
+        del r
+
+    for b in bufs.values():
+        b[...] = 0.625                  # the history is over: the caller uses its buffers for something else
+    bufs.clear()
+
+    def tol_of(S, cls):
+        return max(_tol(S["k"]), 1e-9) if cls == "c" else 1e-9
+
+    def check_bytes(when):
+        for q in kept:
+            if q.get("dead"):
+                continue
+            if _snap(q["obj"]) != q["snap"]:
+                q["dead"] = True
+                say("the %s returned by %s (%s) changed %s: %s" % (
+                    q["label"], q["fn"], who(q["si"]), when, _first_diff(q["obj"], q["snap"])))
+
+    # (B) kept results are what they were, and what they should be
+    check_bytes("while later conversions ran")
+    for q in kept:
+        S = sets[q["si"]]
+        d = _dist(q["obj"], S[q["label"]], q["label"])
+        _stat(("B", q["cls"], q["fn"], q["label"]), d, tol_of(S, q["cls"]))
+        if not d <= tol_of(S, q["cls"]):
+            say("kept %s of %s != reference (%s): %.2e" % (q["label"], q["fn"], who(q["si"]), d))
+        if q["label"] == "w" and len(q["obj"]) == S["order"]:
+            d = _lsf_definition(S["a"], np.asarray(q["obj"], dtype=float))
+            if not d <= LSF_DEF_TOL:
+                say("kept poly2lsf result: the sum / difference polynomials do not vanish alternately at e^{i lsf_j} (%s): %.2e" % (
+                    who(q["si"]), d))
+    for si, fn, arr, snap in alive:
+        if _snap(arr) != snap:
+            say("the argument of %s (%s) was modified by a later conversion: %s" % (fn, who(si), _first_diff(arr, snap)))
+
+    # (C) kept results as inputs of the inverse-pair / commuting-square clauses
+    def clause(q, fn, arr, scalars, expect, what):
+        S = sets[q["si"]]
+        try:
+            r = call(q["si"], fn, S, arr, scalars)
+        except Exception as ex:
+            say("%s raised %r on the kept %s of %s (%s)" % (fn, ex, q["label"], q["fn"], who(q["si"])))
+            return
+        if not isinstance(r, tuple):
+            r = (r,)
+        # the kept input carries the error of a conditioned direction and the clause adds its own: 10 * _tol(k)
+        # (measured on the unchanged tree, 5300 cases: worst error <= 0.083 * _tol(k) [final error of ac2poly(kept poly2ac result)])
+        t = 10.0 * tol_of(S, "c")
+        for o, key in zip(r, expect):
+            if key is None:
+                continue
+            d = _dist(o, S[key], key)
+            _stat(("C", fn, q["fn"], q["label"], key), d, t)
+            if not d <= t:
+                say("%s: %s(kept %s of %s) != %s (%s): %.2e" % (what, fn, q["label"], q["fn"], key, who(q["si"]), d))
+
+    stride = max(1, int(p.get("reuse_every", 1)))
+    by_call = {}
+    for q in kept:
+        by_call.setdefault((q["si"], q["fn"]), {})[q["label"]] = q
+    n = 0
+    for q in kept:
+        n += 1
+        if n % stride:
+            continue
+        S = sets[q["si"]]
+        lab, o = q["label"], q["obj"]
+        grp = by_call[(q["si"], q["fn"])]
+        if lab == "k":
+            clause(q, "rc2poly", o, [S["r0"]], ("a", "e"), "rc -> poly")
+            clause(q, "rc2ac", o, [S["r0"]], ("R",), "rc -> ac")
+        elif lab in ("a", "a1"):
+            ee = grp["e"]["obj"] if "e" in grp else S["e"]
+            aa = o if lab == "a" else np.insert(o, 0, 1)
+            clause(q, "poly2rc", aa, [ee], ("k",), "poly -> rc")
+            clause(q, "poly2ac", aa, [ee], ("R",), "poly -> ac")
+        elif lab == "R":
+            Rin = o if S["cplx"] else np.real(o)
+            clause(q, "ac2poly", Rin, [], ("a", "e"), "ac -> poly")
+            clause(q, "ac2rc", Rin, [], ("k", "r0"), "ac -> rc")
+        elif lab == "g":
+            clause(q, "lar2rc", o, [], ("k",), "lar -> rc")
+        elif lab == "s":
+            clause(q, "is2rc", o, [], ("k",), "is -> rc")
+        elif lab == "w":
+            clause(q, "lsf2poly", np.asarray(o, dtype=float), [], ("a",), "lsf -> poly")
+        elif lab == "ap":
+            clause(q, "levup", o, [S["kp"], grp["ep"]["obj"]], ("a", "e"), "levup o levdown")
+
+    # (B2)
+    check_bytes("while the kept results were used as inputs of later conversions")
+
+    # (D) tripwires -> directed probes; a violation is reported only through a changed value
+    arrs = [q for q in kept if isinstance(q["obj"], np.ndarray) and q["obj"].size and not q.get("dead")]
+    glob = _module_level_ids()
+    for q in arrs:
+        if id(_root_base(q["obj"])) in glob:
+            S = sets[q["si"]]
+            T = _probe_set(S)
+            if "w" in S:
+                T["w"] = S["w"][::-1].copy() * 0.5
+            akey, skeys, _ = KEPT_SPEC[q["fn"]]
+            try:
+                _kept_fn(q["fn"])(np.array(T[akey]), *[T[s] for s in skeys])
+            except Exception:
+                pass
+            if _snap(q["obj"]) != q["snap"]:
+                q["dead"] = True
+                say("the %s returned by %s (%s) is a view of a module-level array and changed when %s converted another parameter set "
+                    "of the same order and dtype: %s" % (q["label"], q["fn"], who(q["si"]), q["fn"], _first_diff(q["obj"], q["snap"])))
+    others = [(si, fn, "argument", arr) for si, fn, arr, _ in alive]
+    for i, q in enumerate(arrs):
+        if q.get("dead") or not q["obj"].flags.writeable:
+            continue
+        for q2 in arrs[i + 1:]:
+            if q2.get("dead"):
+                continue
+            if np.may_share_memory(q["obj"], q2["obj"]) and np.shares_memory(q["obj"], q2["obj"]):
+                before = _snap(q2["obj"])
+                q["obj"][...] = q["obj"] * 0.5 + 0.25       # the caller scales the array it was given, in place
+                q["dead"] = True
+                if _snap(q2["obj"]) != before:
+                    q2["dead"] = True
+                    say("the %s returned by %s (%s) and the %s returned by %s (%s) are the same memory: after the caller rescaled the "
+                        "first in place the second changed, %s" % (q["label"], q["fn"], who(q["si"]), q2["label"], q2["fn"],
+                                                                  who(q2["si"]), _first_diff(q2["obj"], before)))
+                break
+        if q.get("dead"):
+            continue
+        for si, fn, _, arr in others:
+            if np.may_share_memory(q["obj"], arr) and np.shares_memory(q["obj"], arr):
+                before = _snap(arr)
+                q["obj"][...] = q["obj"] * 0.5 + 0.25
+                q["dead"] = True
+                if _snap(arr) != before:
+                    say("the %s returned by %s (%s) is a view of the caller's argument of %s (%s): after the caller rescaled the result "
+                        "in place its argument changed, %s" % (q["label"], q["fn"], who(q["si"]), fn, who(si), _first_diff(arr, before)))
+                break
+    return out
+
+
+def _key_kept(p):
+    h = 0
+    for s in p["sets"]:
+        h = (h * 1000003 + hash(np.asarray(s["k"]).tobytes()) + hash(float(s["r0"]))) & 0xFFFFFFFFFF
+    return "kept|%d|%s|%s|%s|%s|%s|%d" % (len(p["sets"]), p.get("inputs"), p.get("interleave"), p.get("rot"), bool(p.get("rev")),
+                                           bool(p.get("faults")), h)
+
+
+def _tags_kept(p):
+    ks = [np.asarray(s["k"]) for s in p["sets"]]
+    cl = [(len(k), bool(np.iscomplexobj(k))) for k in ks]
+    t = ["kept", "kept-sets:%d" % len(ks), "kept-inputs:%s" % p.get("inputs", "fresh"),
+         "kept-calls:%s/%s" % (p.get("interleave", "by-set"), "rev" if p.get("rev") else "fwd"),
+         "kept:" + ("same-class" if len(set(cl)) == 1 else "mixed-classes"),
+         "kept-first:%s" % ("complex" if cl[0][1] else "real"), "order:%d" % cl[0][0]]
+    if max(cl.count(x) for x in cl) >= 2:
+        t.append("kept:two-sets-of-one-class")
+    if p.get("faults"):
+        t.append("kept:rejected-calls-in-between")
+    return t
+
+
 def impl_lsf(p):
     return [c(_lp().lsf2poly(p["lsf"]))]
 
@@ -632,6 +1081,7 @@ KINDS["lsf"] = {"impl": impl_lsf, "model": model_lsf, "rtol": 1e-9, "atol": 1e-1
 KINDS["lsfinv"] = {"oracle": oracle_lsfinv, "key": KINDS["lsf"]["key"],
                    "tags": lambda p: ["lsfinv", "order:%d" % len(p["lsf"])] + ["lsfinv-dropped"] * int(p.get("ndrop", 0)),
                    "nontrivial": lambda p: len(p["lsf"]) >= 2}
+KINDS["kept"] = {"oracle": oracle_kept, "key": _key_kept, "tags": _tags_kept, "nontrivial": lambda p: len(p["sets"][0]["k"]) >= 2}
 KINDS["acint"] = {"oracle": oracle_acint,
                   "key": lambda p: "acint|" + ",".join(str(int(v)) for v in p["R"]),
                   "tags": lambda p: ["acint", "order:%d" % (len(p["R"]) - 1)], "nontrivial": lambda p: len(p["R"]) >= 3}
@@ -686,6 +1136,51 @@ def gen_acint(nrng, order):
     if not in_domain(kk):
         return None
     return R
+
+
+def gen_set(nrng, order, cplx, i=0, avoid=()):
+    """one admissible parameter set of the given order and dtype (redrawn until the conditioning predicate holds and the set differs
+    from the sets in `avoid`; every fourth draw from the large-modulus family)"""
+    for attempt in range(30):
+        k = gen_k_large(nrng, order, cplx) if (i + attempt) % 4 == 3 else gen_k(nrng, order, cplx)
+        if in_domain(k) and not any(np.array_equal(k, np.asarray(s["k"])) for s in avoid):
+            return {"k": k, "r0": float(nrng.integers(1, 9)) / 2.0}
+    k = gen_k(nrng, order, cplx) * 0.5 + (0.015625 * (1 + len(avoid)))      # moduli <= 0.75: always inside the domain
+    return {"k": k, "r0": 1.0}
+
+
+KEPT_INPUTS = ("fresh", "buffer", "temp", "readonly")
+
+
+def gen_kept(nrng, quick):
+    """histories with kept results: (1) three different parameter sets of ONE order and dtype, every order 1..16, real and complex,
+    both orders of the converter sequence, alternately set after set / converter after converter; (2) two sets of one order and dtype
+    with sets of another order and of the other dtype converted in between"""
+    j = 0
+    for rep in range(1):
+        for order in range(1, 17):
+            for cplx in (False, True):
+                for rev in (False, True):
+                    sets = []
+                    for i in range(3):
+                        sets.append(gen_set(nrng, order, cplx, j + i, sets))
+                    yield ("kept", {"sets": sets, "inputs": KEPT_INPUTS[j % 4], "rev": rev, "rot": int(nrng.integers(0, 16)), "faults": j % 3 == 1,
+                                    "interleave": "by-fn" if (j + j // 2 + j // 4) % 2 else "by-set"})
+                    j += 1
+    for i in range(16 if quick else 32):
+        order = 1 + i % 16
+        other = 1 + int(nrng.integers(0, 16))
+        cplx = bool((i // 2) % 2)
+        sets = [gen_set(nrng, order, cplx, i)]
+        sets.append(gen_set(nrng, other, cplx if i % 2 else not cplx, i + 1))
+        sets.append(gen_set(nrng, order, not cplx, i + 2))
+        sets.append(gen_set(nrng, order, cplx, i + 3, sets[:1]))
+        if i % 3 == 1:
+            sets[3]["k"] = np.zeros(order, dtype=complex if cplx else float)        # white noise: nothing to compute, nothing to copy?
+        elif i % 3 == 0:
+            sets[3]["k"][-1] = 0.0                                                   # polynomial of lower degree than the order
+        yield ("kept", {"sets": sets, "inputs": KEPT_INPUTS[i % 4], "rev": bool((i // 3) % 2), "rot": int(nrng.integers(0, 16)), "faults": i % 3 == 2,
+                        "interleave": "by-fn" if (i // 4) % 2 else "by-set"})
 
 
 def gen(rng, nrng, tier):
@@ -794,3 +1289,6 @@ def gen(rng, nrng, tier):
         R = gen_acint(nrng, 1 + i % 8)
         if R is not None:
             yield ("acint", {"R": R})
+    # results of earlier conversions kept while later conversions run (own random stream: the cases above stay what they were)
+    for case in gen_kept(np.random.default_rng([int(nrng.integers(0, 2 ** 31)), 11]), quick):
+        yield case
